@@ -404,6 +404,8 @@ class Interp:
         name = fn.get("name")
         full = fn.get("res_full") or fn.get("full") or fn["def"]
         trait = fn.get("trait")
+        if self.ctx.log_calls and re.search(self.ctx.log_calls, full):
+            self.ctx.calls.append((full, tuple(args), site, self.body.id))
         # ---- sink operations (trait methods, on any receiver)
         if trait == BITSINK:
             g = fn.get("gargs") or []
@@ -432,7 +434,7 @@ class Interp:
                 mid = self.ctx.mark_id()
                 ev.append(("mark", args[0], mid))
                 return ("sinklen", mid) if name == "len" else ("sinkbytes", mid)
-            if name in ("reserve", "write_to_byte_slice", "new", "with_capacity", "is_empty", "into_inner", "to_bitstring"):
+            if name in ("reserve", "write_to_byte_slice", "new", "with_capacity", "is_empty", "into_inner", "to_bitstring", "paddings", "paddings_to_byte"):
                 return ("call", full, tuple(args), ())
             raise Undecided("unmodelled MemSink method %s at %s" % (name, site))
         if trait == BITREPR and name == "write":
@@ -467,8 +469,6 @@ class Interp:
                     return self.apply_parser(clo, list(tup[3]), ev, site)
                 return self.inline_closure(clo, list(tup[3]), ev, site)
             raise Undecided("closure call with untupled arguments at %s" % site)
-        if self.ctx.log_calls and re.search(self.ctx.log_calls, full):
-            self.ctx.calls.append((full, tuple(args), site, self.body.id))
         if self.ctx.reader and re.match(r"^nom::number::(streaming|complete)::be_u(8|16|24|32|64)$", fn["def"]):
             aid = self.ctx.apply_id()
             ev.append(("apply", ("fn", fn["def"]), site, aid))
